@@ -366,6 +366,38 @@ def m_opt_as_ref(I, st, call):
     return out
 
 
+@model("core::option::Option::<T>::get_or_insert_with", "core::option::Option::<T>::get_or_insert", "core::option::Option::<T>::insert")
+def m_opt_get_or_insert(I, st, call):
+    ref = call.args[0]
+    if not isinstance(ref, RefV):
+        return None
+    inner_ref = RefV(ref.place.extend(("v", 1), ("f", 0)), True)
+    if call.name == "insert":
+        v = I.ensure(st, ref.place, pointee(call.arg_tys[0]), "opt")
+        path = v.path if isinstance(v, EnumV) else "core::option::Option"
+        I.write(st, ref.place, EnumV(path, {1: StructV([call.args[1]])}, getattr(v, "ty", None)))
+        return [(st, inner_ref)]
+    sp = split_ref_variants(I, st, ref, call.arg_tys[0])
+    if sp is None:
+        return None
+    out = []
+    for s, vi, p in sp:
+        if vi == 1:
+            out.append((s, inner_ref))
+            continue
+        cur = I.read(s, ref.place)
+        if call.name == "get_or_insert":
+            vals = [(s, call.args[1])]
+        else:
+            vals = call_fn_value(I, s, call, call.args[1], call.arg_tys[1], [], "get_or_insert_with")
+            if vals is None:
+                return None
+        for s2, val in vals:
+            I.write(s2, ref.place, EnumV(cur.path if isinstance(cur, EnumV) else "core::option::Option", {1: StructV([val])}, getattr(cur, "ty", None)))
+            out.append((s2, inner_ref))
+    return out
+
+
 @model("core::result::Result::<T, E>::as_ref", "core::result::Result::<T, E>::as_mut")
 def m_res_as_ref(I, st, call):
     ref = call.args[0]
